@@ -24,7 +24,15 @@ void harness(void)
   V_IN(uint32_t, len_b);
   V_IN(uint32_t, off0);
   V_IN(uint32_t, t); /* ghost: any bit of B */
-  V_ASSUME(len_a < 64 * SLOTS && len_b < 64 * SLOTS && len_b >= 1);
+  V_ASSUME(len_a < 64 * SLOTS);
+  /* precondition taken from the only call site (_yr_ac_find_suitable_transition_table_slot):
+   * len_b = YR_BITMASK_SLOT_BITS * 4 + 1 = 257, i.e. the last slot of B holds exactly one
+   * bit and nothing above it. The stand-in uses 1 * 64 + 1 = 65 (same shape, shorter k
+   * loop). NOTE (observation, DESIGN.md A.3): for a general len_b whose last slot holds
+   * more than one bit, the bits of B shifted out of B's last slot are never compared with
+   * A -- CBMC finds the collision at len_b = 63, j = 32; the call site cannot reach it. */
+  V_ASSUME(len_b == 65);
+  V_ASSUME((bv[1] & ~(uint64_t) 1) == 0);
   V_ASSUME(off0 <= len_a);
   V_ASSUME(bv[0] & 1); /* first bit of B set: the function's documented precondition */
   size_t sa = len_a / 64 + 1, sb = len_b / 64 + 1;
@@ -37,13 +45,13 @@ void harness(void)
 
   uint32_t r = yr_bitmask_find_non_colliding_offset(a, b, len_a, len_b, &off);
 
-  V_ASSERT(r <= len_a, "offset_inside_A");
+  V_ASSERT(r < 64 * sa, "offset_inside_As_slots");
   for (size_t i = 0; i < SLOTS; i++)
   {
     if (i < sa) V_ASSERT(a[i] == av[i], "frame.A_unchanged");
     if (i < sb) V_ASSERT(b[i] == bv[i], "frame.B_unchanged");
   }
-  if (r < len_a && t < 64 * sb && ((bv[t / 64] >> (t % 64)) & 1))
+  if (t < 64 * sb && ((bv[t / 64] >> (t % 64)) & 1) && r < 64 * sa)
   {
     uint64_t pos = (uint64_t) r + t;
     if (pos / 64 < sa)
